@@ -57,30 +57,35 @@ LArg(shape, j) ==
 \* numeric root operators
 NumOps == {"add", "sub", "mul", "mulc", "neg", "abs", "min2", "max2", "min3", "max3", "if", "count",
            "numberofc", "numberofv", "pl", "divc", "sqr", "pow3", "sum3", "absdiff", "maxabs"}
-NumExpr(op, sh) ==
-  LET a == Arg(sh, 1)  b == Arg(sh, 2)  c == Arg(sh, 3)
-  IN CASE op = "add"  -> O2(0, a, b)
-       [] op = "sub"  -> O2(1, a, b)
-       [] op = "mul"  -> O2(2, a, b)
-       [] op = "mulc" -> O2(2, N(-2), a)
-       [] op = "neg"  -> O1(16, a)
-       [] op = "abs"  -> O1(15, a)
-       [] op = "min2" -> ON(11, <<a, b>>)
-       [] op = "max2" -> ON(12, <<a, b>>)
-       [] op = "min3" -> ON(11, <<a, b, c>>)
-       [] op = "max3" -> ON(12, <<a, b, c>>)
-       [] op = "if"   -> O3(35, LArg(sh, 1), b, c)
-       [] op = "count" -> ON(59, <<LArg(sh, 1), LArg(sh, 2), LArg(sh, 3)>>)
-       [] op = "numberofc" -> ON(60, <<N(1), a, b, c>>)
-       [] op = "numberofv" -> ON(60, <<a, b, c>>)
-       [] op = "pl"   -> PL(<<-1, 1, 2>>, <<0, 1>>, V(0))
-       [] op = "divc" -> O2(3, a, N(2))
-       [] op = "sqr"  -> O1(77, a)
-       [] op = "pow3" -> O2(76, a, N(3))
-       [] op = "sum3" -> ON(54, <<a, b, c>>)
-       [] op = "less" -> O2(6, a, b)
-       [] op = "absdiff" -> O1(15, O2(1, a, b))
-       [] op = "maxabs"  -> ON(12, <<O1(15, a), b>>)
+NumExprA(op, a, b, c, p, q, r) ==
+  CASE op = "add"  -> O2(0, a, b)
+    [] op = "sub"  -> O2(1, a, b)
+    [] op = "mul"  -> O2(2, a, b)
+    [] op = "mulc" -> O2(2, N(-2), a)
+    [] op = "neg"  -> O1(16, a)
+    [] op = "abs"  -> O1(15, a)
+    [] op = "min2" -> ON(11, <<a, b>>)
+    [] op = "max2" -> ON(12, <<a, b>>)
+    [] op = "min3" -> ON(11, <<a, b, c>>)
+    [] op = "max3" -> ON(12, <<a, b, c>>)
+    [] op = "if"   -> O3(35, p, b, c)
+    [] op = "count" -> ON(59, <<p, q, r>>)
+    [] op = "numberofc" -> ON(60, <<N(1), a, b, c>>)
+    [] op = "numberofv" -> ON(60, <<a, b, c>>)
+    [] op = "pl"   -> PL(<<-1, 1, 2>>, <<0, 1>>, V(0))
+    [] op = "divc" -> O2(3, a, N(2))
+    [] op = "sqr"  -> O1(77, a)
+    [] op = "pow3" -> O2(76, a, N(3))
+    [] op = "sum3" -> ON(54, <<a, b, c>>)
+    [] op = "absdiff" -> O1(15, O2(1, a, b))
+    [] op = "maxabs"  -> ON(12, <<O1(15, a), b>>)
+NumExpr(op, sh) == NumExprA(op, Arg(sh, 1), Arg(sh, 2), Arg(sh, 3), LArg(sh, 1), LArg(sh, 2), LArg(sh, 3))
+\* depth-2 composition: the first operand of op1 (numeric or logical) is itself a root operator over x0, x1, x2
+NestOuter == {"add", "mulc", "neg", "abs", "min2", "max2", "if", "count", "sum3", "maxabs"}
+NestInner == {"sub", "mul", "abs", "min2", "max3", "if", "numberofc", "divc", "sqr", "absdiff"}
+NestExpr(op1, op2) ==
+  LET inner == NumExpr(op2, "vars")
+  IN NumExprA(op1, inner, V(1), O2(0, V(2), N(1)), O2(28, inner, N(1)), O2(23, V(1), N(1)), O2(24, inner, V(2)))
 
 LogOps == {"lt", "le", "eq", "ge", "gt", "ne", "and", "or", "not", "iff", "impl", "implelse", "forall", "exists",
            "alldiff", "nalldiff", "atleast", "atmost", "exactly", "natleast", "natmost", "nexactly", "eqmax", "ifeq"}
@@ -121,7 +126,8 @@ LinObj(max, lin) == [max |-> max, lin |-> lin, has |-> FALSE, e |-> N(0)]
 SumObj == LinObj(FALSE, << <<0, 1>>, <<1, 2>>, <<2, -1>> >>)       \* a fixed linear objective x0 + 2 x1 - x2
 
 Model(pat, cons, lcons, objs) ==
-  [vars |-> [j \in 1..3 |-> Dom(pat[j])], cons |-> cons, lcons |-> lcons, objs |-> objs, dvars |-> <<>>]
+  [vars |-> [j \in 1..3 |-> Dom(pat[j])], cons |-> cons, lcons |-> lcons, objs |-> objs, dvars |-> <<>>,
+   compl |-> <<>>, sos |-> <<>>]
 
 NumModel(op, sh, pat, use, k) ==
   LET E == NumExpr(op, sh)
@@ -148,17 +154,52 @@ LogModel(op, sh, pat, use) ==
        [] use = "liff" -> Model(pat, <<>>, <<O2(73, B, O2(28, V(2), N(1)))>>, <<SumObj>>)
        [] use = "shared" -> Model(pat, <<>>, <<O2(20, B, O2(24, V(2), N(0))), O3(72, O2(28, V(2), N(1)), O1(34, B), N(1))>>, <<SumObj>>)
 
+\* defined variables: d0 = E, used by a constraint, a logical constraint and the objective; d1 linear only
+DVModel(op, sh, pat, k) ==
+  LET E == NumExpr(op, sh)  D0 == [k |-> "d", i |-> 0]  D1 == [k |-> "d", i |-> 1]
+  IN [vars |-> [j \in 1..3 |-> Dom(pat[j])],
+      cons |-> <<Con("-inf", k + 1, D0), Con(-3, "inf", O2(0, D1, D0))>>,
+      lcons |-> <<O2(20, O2(28, D0, N(k)), O2(28, V(2), N(1)))>>,
+      objs |-> <<Obj(FALSE, O2(0, D0, V(2)))>>,
+      dvars |-> <<[lin |-> <<>>, has |-> TRUE, e |-> E], [lin |-> << <<0, 1>>, <<1, -1>> >>, has |-> FALSE, e |-> N(0)]>>,
+      compl |-> <<>>, sos |-> <<>>]
+\* complementarity: (body E) complements variable x2 within its bounds
+ComplModel(op, sh, pat, k) ==
+  [Model(pat, <<Con(0, 0, NumExpr(op, sh)), LinCon("-inf", 4, << <<0, 1>>, <<1, 1>> >>)>>, <<>>, <<SumObj>>)
+     EXCEPT !.compl = << <<0, 2>> >>]
+\* SOS sets given by the suffixes sosno / ref on the three variables; kind 1 or 2
+SOSModel(skind, pat, k) ==
+  [Model(pat, <<LinCon(k, "inf", << <<0, 1>>, <<1, 1>>, <<2, 1>> >>)>>, <<>>, <<LinObj(TRUE, << <<0, 1>>, <<1, 2>>, <<2, 1>> >>)>>)
+     EXCEPT !.sos = <<[kind |-> skind, items |-> << <<0, 1>>, <<1, 2>>, <<2, 3>> >>]>>]
+
 VARIABLES kind, op, sh, pat, use, k
 vars == <<kind, op, sh, pat, use, k>>
 
 Init ==
   /\ Layer = "exhaustive"
-  /\ pat \in Patterns /\ sh \in Shapes
-  /\ \/ (kind = "num" /\ op \in NumOps /\ use \in NumUses /\ k \in {0, 1, 2})
-     \/ (kind = "log" /\ op \in LogOps /\ use \in LogUses /\ k = 0)
+  /\ pat \in Patterns
+  /\ \/ (kind = "num" /\ sh \in Shapes /\ op \in NumOps /\ use \in NumUses /\ k \in {0, 1, 2})
+     \/ (kind = "log" /\ sh \in Shapes /\ op \in LogOps /\ use \in LogUses /\ k = 0)
+     \/ (kind = "dvar" /\ sh \in Shapes /\ op \in NumOps /\ use = "dvar" /\ k \in {0, 1, 2})
+     \/ (kind = "compl" /\ sh \in Shapes /\ op \in {"add", "sub", "mulc", "neg", "sum3"} /\ use = "compl" /\ k = 0)
+     \/ (kind = "sos" /\ op \in {"sos1", "sos2"} /\ sh = "vars" /\ use = "sos" /\ k \in {0, 1, 2})
+     \/ (kind = "nest" /\ op \in NestOuter /\ sh \in NestInner /\ use \in {"con_le", "con_ge", "objmin", "lcon_lt", "shared", "inor"} /\ k \in {0, 1})
 Next == UNCHANGED vars
 
 CaseId == <<kind, op, sh, pat, use, k>>
-TheModel == IF kind = "num" THEN NumModel(op, sh, pat, use, k) ELSE LogModel(op, sh, pat, use)
+NestModel(op1, op2, pat0, use0, k0) ==
+  LET E == NestExpr(op1, op2)
+  IN CASE use0 = "con_le" -> Model(pat0, <<Con("-inf", k0 + 1, E)>>, <<>>, <<SumObj>>)
+       [] use0 = "con_ge" -> Model(pat0, <<Con(k0, "inf", E)>>, <<>>, <<SumObj>>)
+       [] use0 = "objmin" -> Model(pat0, <<LinCon(k0, "inf", << <<0, 1>>, <<1, 1>> >>)>>, <<>>, <<Obj(FALSE, E)>>)
+       [] use0 = "lcon_lt" -> Model(pat0, <<>>, <<O2(22, E, N(k0 + 1))>>, <<SumObj>>)
+       [] use0 = "shared" -> Model(pat0, <<Con(k0, "inf", E)>>, <<O2(20, O2(23, E, N(k0 + 1)), O2(28, V(2), N(1)))>>, <<Obj(FALSE, E)>>)
+       [] use0 = "inor" -> Model(pat0, <<>>, <<O2(20, O2(28, E, N(k0)), O2(23, V(2), N(0)))>>, <<SumObj>>)
+TheModel == CASE kind = "num" -> NumModel(op, sh, pat, use, k)
+              [] kind = "log" -> LogModel(op, sh, pat, use)
+              [] kind = "dvar" -> DVModel(op, sh, pat, k)
+              [] kind = "compl" -> ComplModel(op, sh, pat, k)
+              [] kind = "sos" -> SOSModel(IF op = "sos1" THEN 1 ELSE 2, pat, k)
+              [] kind = "nest" -> NestModel(op, sh, pat, use, k)
 Emit == PrintT(<<"CASE", ToJson([kind |-> kind, op |-> op, sh |-> sh, pat |-> pat, use |-> use, k |-> k, m |-> TheModel])>>)
 =============================================================================
